@@ -378,6 +378,13 @@ func (db *DB) Merge() error {
 			return err
 		}
 
+		// nothing had to be rewritten from the active file, so it is still the active file:
+		// removing it would send every later write into an unlinked file
+		if db.ActiveFile != nil && db.ActiveFile.fileID == int64(pendingMergeFId) {
+			f.rwManager.Close()
+			continue
+		}
+
 		if err := os.Remove(db.getDataPath(int64(pendingMergeFId))); err != nil {
 			db.isMerging = false
 			f.rwManager.Close()
